@@ -21,6 +21,7 @@ type Op struct {
 	W    int      `json:"wk"`   // workers
 	Fail []int    `json:"fail"` // failing ledger write calls (1-based within the op)
 	New  string   `json:"new"`  // name for a handle created by the op
+	Keep bool     `json:"keep"` // a removed / overwritten container is kept by the caller (becomes a detached root) instead of disposed
 }
 
 type Res struct {
@@ -45,7 +46,10 @@ type RecCfg struct {
 type Rec struct {
 	T     int       `json:"t"`
 	Ev    string    `json:"ev"`
+	Op    string    `json:"op"`
 	H     string    `json:"h"`
+	Hv    int       `json:"hv"`   // canonical value id of the container the handle names
+	Keep  bool      `json:"keep"` // a handed-back container is kept by the caller
 	I     int       `json:"i"`
 	J     int       `json:"j"`
 	E     ElemSpec  `json:"e"`
@@ -129,7 +133,15 @@ func (w *World) rec(t int, ev string, op Op, res Res) Rec {
 		v := h.Dig.Vec(op.K.ID)
 		kd = []int{int(v[0]), int(v[1]), int(v[2]), int(v[3])}
 	}
-	r := Rec{T: t, Ev: ev, H: op.H, I: op.I, J: op.J, E: op.E, K: op.K, Kd: kd, Ti: op.Ti, Res: res, Roots: roots, St: st, Cfg: w.cfg(),
+	hv := 0
+	if h, ok := w.H[op.H]; ok {
+		if h.Kind == "A" {
+			hv = w.cid(valueIDToSlabID(h.Arr.ValueID()))
+		} else {
+			hv = w.cid(valueIDToSlabID(h.Map.ValueID()))
+		}
+	}
+	r := Rec{T: t, Ev: ev, Op: op.Op, Hv: hv, Keep: op.Keep, H: op.H, I: op.I, J: op.J, E: op.E, K: op.K, Kd: kd, Ti: op.Ti, Res: res, Roots: roots, St: st, Cfg: w.cfg(),
 		Mode: op.Mode, Calls: []CallObs{}, Cold: []RootObs{}, Regs: []RegObs{}}
 	if w.lastCalls != nil {
 		r.Calls = w.lastCalls
@@ -177,11 +189,15 @@ func (w *World) dispose(st atree.Storable) {
 		}
 		break
 	}
-	id, ok := st.(atree.SlabIDStorable)
-	if !ok {
-		return
+	switch x := st.(type) {
+	case atree.SlabIDStorable:
+		w.disposeSlab(atree.SlabID(x))
+	case *atree.ArrayDataSlab, *atree.MapDataSlab:
+		// an inlined container handed back as is (bulk pop): everything it references must be released too
+		for _, c := range x.ChildStorables() {
+			w.dispose(c)
+		}
 	}
-	w.disposeSlab(atree.SlabID(id))
 }
 
 func (w *World) disposeSlab(id atree.SlabID) {
@@ -324,12 +340,19 @@ func (w *World) Exec(op Op) (string, Res) {
 		}
 		if err == nil {
 			w.pendingColdRefresh = true
+			w.rememberRoots()
 		} else {
 			w.commitKnown = false
 		}
 		return "Commit", resOf(err)
 	case "dropcache":
 		w.St.DropCache()
+		// handle-tree rule (iv): only root handles survive a replacement of cached slab objects
+		for name, h := range w.H {
+			if h.Parent != "" {
+				delete(w.H, name)
+			}
+		}
 		return "DropCache", resOf(nil)
 	case "crash":
 		// abandon the in-memory storage; open a brand-new one over the ledger and reopen every root by its identifier
@@ -470,4 +493,303 @@ func (w *World) ExecSilent(op Op) {
 	if ev == "Commit" && res.Class == "ok" {
 		w.committedRoots, w.commitKnown = w.ColdObserve(), true
 	}
+}
+
+// ---------------------------------------------------------------- nested containers
+
+// valueFor builds the value for an element spec; for containers it returns the handle that now names it.
+func (w *World) valueFor(e *ElemSpec, newName, parent string) (atree.Value, *Handle) {
+	var v atree.Value
+	var h *Handle
+	switch {
+	case e.New == "A":
+		a, err := atree.NewArray(w.St, w.Addr, testutils.NewSimpleTypeInfo(uint64(43)))
+		must(err)
+		h = &Handle{Name: newName, Kind: "A", Arr: a, Parent: parent}
+		e.Vid = w.cid(valueIDToSlabID(a.ValueID()))
+		v = a
+	case e.New == "M" || e.New == "C":
+		var ti atree.TypeInfo = testutils.NewSimpleTypeInfo(uint64(44))
+		if e.New == "C" {
+			// composite type: same-typed inlined siblings share the compact encoding (hoisted keys / digests)
+			ti = compTypeInfo{7}
+		}
+		m, err := atree.NewMap(w.St, w.Addr, atree.NewDefaultDigesterBuilder(), ti)
+		must(err)
+		h = &Handle{Name: newName, Kind: "M", Map: m, Parent: parent}
+		e.Vid = w.cid(valueIDToSlabID(m.ValueID()))
+		e.New = "M"
+		v = m
+	case e.Ref != "":
+		h = w.handle(e.Ref)
+		h.Parent = parent
+		if h.Kind == "A" {
+			v = h.Arr
+			e.Vid = w.cid(valueIDToSlabID(h.Arr.ValueID()))
+		} else {
+			v = h.Map
+			e.Vid = w.cid(valueIDToSlabID(h.Map.ValueID()))
+		}
+		// no longer a root held by the caller
+		for i, n := range w.Roots {
+			if n == e.Ref {
+				w.Roots = append(w.Roots[:i:i], w.Roots[i+1:]...)
+				break
+			}
+		}
+	default:
+		return mkValue(*e), nil
+	}
+	for i := 0; i < e.W; i++ {
+		v = testutils.NewSomeValue(v)
+	}
+	if w.NameOfVid == nil {
+		w.NameOfVid = map[int]string{}
+	}
+	w.NameOfVid[e.Vid] = h.Name
+	return v, h
+}
+
+// retireSubtree removes every handle obtained (transitively) through the named handle.
+func (w *World) retireSubtree(name string) {
+	for n, h := range w.H {
+		if h.Parent == name {
+			w.retireSubtree(n)
+			delete(w.H, n)
+		}
+	}
+}
+
+// adopt registers the container behind a value returned by Get / iteration as the live handle `name`.
+func (w *World) adopt(v atree.Value, name, parent string) (int, string) {
+	for {
+		if sv, ok := v.(testutils.SomeValue); ok {
+			v = sv.Value
+			continue
+		}
+		break
+	}
+	switch c := v.(type) {
+	case *atree.Array:
+		w.retireSubtree(name)
+		w.H[name] = &Handle{Name: name, Kind: "A", Arr: c, Parent: parent}
+		return w.cid(valueIDToSlabID(c.ValueID())), "A"
+	case *atree.OrderedMap:
+		w.retireSubtree(name)
+		w.H[name] = &Handle{Name: name, Kind: "M", Map: c, Parent: parent}
+		return w.cid(valueIDToSlabID(c.ValueID())), "M"
+	}
+	return 0, ""
+}
+
+// handBack deals with a storable the library handed back on removal / overwrite: containers are either kept
+// by the caller as detached roots (reusing the live handle if there is one) or disposed of, with their handles.
+func (w *World) handBack(st atree.Storable, keep bool, keepName string) (int, string) {
+	v, c := w.tokenOfStorable(st)
+	if st == nil {
+		return 0, ""
+	}
+	if c != "RA" && c != "RM" {
+		w.dispose(st)
+		return v, c
+	}
+	// find the live handle of this container, if any
+	var live string
+	for n, h := range w.H {
+		var vid atree.ValueID
+		if h.Kind == "A" {
+			vid = h.Arr.ValueID()
+		} else {
+			vid = h.Map.ValueID()
+		}
+		if w.cid(valueIDToSlabID(vid)) == v {
+			live = n
+		}
+	}
+	if !keep {
+		if live != "" {
+			w.retireSubtree(live)
+			delete(w.H, live)
+		}
+		w.dispose(st)
+		return v, c
+	}
+	if live == "" {
+		inner := st
+		for {
+			if ss, ok := inner.(testutils.SomeStorable); ok {
+				inner = ss.Storable
+				continue
+			}
+			break
+		}
+		id := atree.SlabID(inner.(atree.SlabIDStorable))
+		if c == "RA" {
+			a, err := atree.NewArrayWithRootID(w.St, id)
+			must(err)
+			w.H[keepName] = &Handle{Name: keepName, Kind: "A", Arr: a}
+		} else {
+			m, err := atree.NewMapWithRootID(w.St, id, atree.NewDefaultDigesterBuilder())
+			must(err)
+			w.H[keepName] = &Handle{Name: keepName, Kind: "M", Map: m}
+		}
+		live = keepName
+	}
+	w.H[live].Parent = ""
+	w.Roots = append(w.Roots, live)
+	return v, c
+}
+
+// ExecNested runs the nested-engine operations ("n.*"); handles are named by the model's container numbers.
+func (w *World) ExecNested(op *Op) (string, Res) {
+	h := w.handle(op.H)
+	fin := func(err error, r Res) Res {
+		ei := classify(err)
+		r.Class, r.Cat = ei.Class, ei.Cat
+		if r.Seq == nil {
+			r.Seq = []int{}
+		}
+		if h.Kind == "A" {
+			r.N = int(h.Arr.Count())
+		} else {
+			r.N = int(h.Map.Count())
+		}
+		return r
+	}
+	switch op.Op {
+	case "n.ins", "n.app":
+		v, nh := w.valueFor(&op.E, op.New, op.H)
+		var err error
+		if op.Op == "n.app" {
+			err = h.Arr.Append(v)
+		} else {
+			err = h.Arr.Insert(idx(op.I), v)
+		}
+		if err == nil && nh != nil {
+			w.H[nh.Name] = nh
+		}
+		return "NIns", fin(err, Res{})
+	case "n.set":
+		v, nh := w.valueFor(&op.E, op.New, op.H)
+		old, err := h.Arr.Set(idx(op.I), v)
+		r := Res{}
+		if err == nil {
+			if nh != nil {
+				w.H[nh.Name] = nh
+			}
+			r.V, r.Vc = w.handBack(old, op.Keep, keepName(op))
+		}
+		return "NSet", fin(err, r)
+	case "n.rem":
+		old, err := h.Arr.Remove(idx(op.I))
+		r := Res{}
+		if err == nil {
+			r.V, r.Vc = w.handBack(old, op.Keep, op.New)
+		}
+		return "NRem", fin(err, r)
+	case "n.get":
+		v, err := h.Arr.Get(idx(op.I))
+		r := Res{}
+		if err == nil {
+			a := w.absOfValue(v)
+			r.V, r.Vc = a.V, a.C
+			if op.New != "" {
+				w.adopt(v, op.New, op.H)
+			}
+		}
+		return "NGet", fin(err, r)
+	case "n.pop":
+		var popped []atree.Storable
+		var err error
+		if h.Kind == "A" {
+			err = h.Arr.PopIterate(func(st atree.Storable) { popped = append(popped, st) })
+		} else {
+			err = h.Map.PopIterate(func(k, v atree.Storable) { popped = append(popped, k, v) })
+		}
+		r := Res{}
+		for _, st := range popped {
+			v, _ := w.handBack(st, false, "")
+			r.Seq = append(r.Seq, v)
+		}
+		w.retireSubtree(op.H)
+		return "NPop", fin(err, r)
+	case "n.mset":
+		v, nh := w.valueFor(&op.E, op.New, op.H)
+		old, err := h.Map.Set(testutils.CompareValue, testutils.GetHashInput, mkValue(op.K), v)
+		r := Res{}
+		if err == nil {
+			if nh != nil {
+				w.H[nh.Name] = nh
+			}
+			if old != nil {
+				r.Found = true
+				r.V, r.Vc = w.handBack(old, op.Keep, keepName(op))
+			}
+		}
+		return "NMSet", fin(err, r)
+	case "n.mrem":
+		k, v, err := h.Map.Remove(testutils.CompareValue, testutils.GetHashInput, mkValue(op.K))
+		r := Res{}
+		if err == nil {
+			r.Found = true
+			r.Kv, _ = w.tokenOfStorable(k)
+			w.dispose(k)
+			r.V, r.Vc = w.handBack(v, op.Keep, op.New)
+		}
+		return "NMRem", fin(err, r)
+	case "n.mget":
+		v, err := h.Map.Get(testutils.CompareValue, testutils.GetHashInput, mkValue(op.K))
+		r := Res{}
+		if err == nil {
+			a := w.absOfValue(v)
+			r.Found = true
+			r.V, r.Vc = a.V, a.C
+			if op.New != "" {
+				w.adopt(v, op.New, op.H)
+			}
+		}
+		return "NMGet", fin(err, r)
+	case "n.iter":
+		// re-acquire handles to every child container through the MUTABLE iterator of the parent
+		var err error
+		adoptChild := func(v atree.Value) {
+			a := w.absOfValue(v)
+			if a.C == "A" || a.C == "M" {
+				if name, ok := w.NameOfVid[a.V]; ok {
+					w.adopt(v, name, op.H)
+				}
+			}
+		}
+		r := Res{}
+		if h.Kind == "A" {
+			err = h.Arr.Iterate(func(v atree.Value) (bool, error) {
+				adoptChild(v)
+				r.Seq = append(r.Seq, w.absOfValue(v).V)
+				return true, nil
+			})
+		} else {
+			err = h.Map.Iterate(testutils.CompareValue, testutils.GetHashInput, func(k, v atree.Value) (bool, error) {
+				adoptChild(v)
+				r.Seq = append(r.Seq, w.absOfValue(k).V, w.absOfValue(v).V)
+				return true, nil
+			})
+		}
+		return "NIter", fin(err, r)
+	case "n.settype":
+		var err error
+		if h.Kind == "A" {
+			err = h.Arr.SetType(testutils.NewSimpleTypeInfo(uint64(op.Ti)))
+		} else {
+			err = h.Map.SetType(testutils.NewSimpleTypeInfo(uint64(op.Ti)))
+		}
+		return "NSetType", fin(err, Res{})
+	}
+	panic("unknown nested op " + op.Op)
+}
+
+func keepName(op *Op) string {
+	if op.E.New == "" {
+		return op.New
+	}
+	return op.New + "k"
 }
